@@ -100,6 +100,58 @@ theorem type4Pass_spec (C : WalletCrypto) (hdwal : HDWallet) (last : Nat) (pre :
           have : i + (j + 1) + last = i + 1 + j + last := by omega
           rw [this]; exact e1
 
+/-- the label of the j-th key of a Type-4 pass: prefix, "/", the decimal number (last mod 2³¹) + i + j
+    (mod 2³²), and "'" exactly when the LAST PATH ELEMENT is hardened (not the index actually derived) -/
+theorem type4Pass_label (C : WalletCrypto) (hdwal : HDWallet) (last : Nat) (pre : Bytes) (k i : Nat)
+    (ks : List (Bytes × Bytes)) (h : type4Pass C hdwal last pre k i = .ok ks) :
+    ∀ j (hj : j < ks.length),
+      (ks[j]).2 = pre ++ [47] ++ decStr ((i + j + last % Gen.HDConsts.hardenedFrom) % 2 ^ 32) ++
+        (if last ≥ Gen.HDConsts.hardenedFrom then [39] else []) := by
+  induction k generalizing i ks with
+  | zero =>
+    simp only [type4Pass, Except.ok.injEq] at h
+    subst h; simp
+  | succ k ih =>
+    simp only [type4Pass] at h
+    cases hc : child C hdwal ((i + last) % 2 ^ 32) with
+    | error e => simp [hc] at h
+    | ok hd =>
+      simp only [hc] at h
+      cases hr : type4Pass C hdwal last pre k (i + 1) with
+      | error e => simp [hr] at h
+      | ok rest =>
+        simp only [hr, Except.ok.injEq] at h
+        subst h
+        intro j hj
+        cases j with
+        | zero => simp
+        | succ j =>
+          have e := ih (i + 1) rest hr j (by simpa using hj)
+          have : i + (j + 1) + last % Gen.HDConsts.hardenedFrom = i + 1 + j + last % Gen.HDConsts.hardenedFrom := by omega
+          rw [this]; simpa using e
+
+/-- one step of the hdsubs loop -/
+theorem type4Subs_step (C : WalletCrypto) (prvwal : HDWallet) (prvidx last keycnt k sub : Nat) (pre : Bytes)
+    (ks : List (Bytes × Bytes)) (h : type4Subs C prvwal prvidx last keycnt (k + 1) sub pre = .ok ks) :
+    ∃ acct ks0 rest, child C prvwal ((prvidx + sub) % 2 ^ 32) = .ok acct ∧
+      type4Pass C acct last (subLabel pre prvidx sub) keycnt 0 = .ok ks0 ∧
+      type4Subs C prvwal prvidx last keycnt k (sub + 1) (subLabel pre prvidx sub) = .ok rest ∧
+      ks = ks0 ++ rest := by
+  simp only [type4Subs] at h
+  cases hc : child C prvwal ((prvidx + sub) % 2 ^ 32) with
+  | error e => simp [hc] at h
+  | ok acct =>
+    simp only [hc] at h
+    cases hp : type4Pass C acct last (subLabel pre prvidx sub) keycnt 0 with
+    | error e => simp [hp] at h
+    | ok ks0 =>
+      simp only [hp] at h
+      cases hr : type4Subs C prvwal prvidx last keycnt k (sub + 1) (subLabel pre prvidx sub) with
+      | error e => simp [hr] at h
+      | ok rest =>
+        simp only [hr, Except.ok.injEq] at h
+        exact ⟨acct, ks0, rest, rfl, hp, rfl, h.symm⟩
+
 /-- well-formed extended key: what `Serialize` can represent -/
 def SerWF (w : HDWallet) : Prop :=
   (isPrivatePfx w.pfx = true ∨ isPublicPfx w.pfx = true) ∧ w.depth < 256 ∧ w.checksum.length = 4 ∧
